@@ -157,6 +157,14 @@ func ByValue() func(string) {
 	return raw
 }
 
+// a tabled METHOD taken as a bound method value and called through it
+func (t *T) rawM(k string) {}
+func (t *T) AllowedM()     { t.rawM("a") }
+func (t *T) ByBoundValue() {
+	f := t.rawM
+	f("r")
+}
+
 // ---- R11 error use
 func (t *T) ErrCheckedOK(k string) error { return t.s.Put(k, nil) }
 func (t *T) ErrDropped(k string)        { t.s.Put(k, nil) }
